@@ -141,7 +141,7 @@ def gen_cases(tier, rng):
     for ds in base:
         L = len(ds)
         for n in range(1, 5):
-            for off in range(0, n):
+            for off in list(range(0, n)) + [n, n + 1, 2 * n, 2 * n + 1, 3 * n + 2]:
                 cases.append({"kind": "RunEveryNPeriods", "p": {"n": n, "offset": off}, "dates": list(ds), "rseed": rng.randint(0, 10**6)})
         for d in range(0, 5):
             cases.append({"kind": "RunAfterDays", "p": {"days": d}, "dates": list(ds), "rseed": rng.randint(0, 10**6)})
